@@ -828,3 +828,52 @@ func (g *Gen) ManyClasses(k int) []interface{} {
 	}
 	return out
 }
+
+var javaListNames = []string{"java.util.ArrayList", "java.util.LinkedList", "java.util.HashSet", "java.util.TreeSet", "java.util.Set",
+	"java.util.List", "java.util.Collection", "java.util.Vector"}
+
+// VariantMaps returns fresh copies of the zoo maps in which some list types carry Java collection class
+// names and some classes carry package-qualified names, consistently in both maps (a complete,
+// hand-written registration as the README describes, instead of the extracted default names).
+func VariantMaps(ch *Choices) (map[string]reflect.Type, map[string]string, string) {
+	tm := make(map[string]reflect.Type, len(ZooTypeMap))
+	for k, v := range ZooTypeMap {
+		tm[k] = v
+	}
+	nm := make(map[string]string, len(ZooNameMap))
+	for k, v := range ZooNameMap {
+		nm[k] = v
+	}
+	salt := ch.Salt("maps.salt")
+	var keys []string
+	for k := range nm {
+		keys = append(keys, k)
+	}
+	sort.Strings(keys)
+	next := int(salt % uint64(len(javaListNames)))
+	usedNames := 0
+	renamed := 0
+	for _, k := range keys {
+		if mix64(hashString(k)^salt)%2 != 0 {
+			continue
+		}
+		t, ok := tm[k]
+		if !ok || t == nil {
+			continue
+		}
+		switch {
+		case strings.HasPrefix(k, "[]") && t.Kind() == reflect.Slice && usedNames < len(javaListNames) && !strings.Contains(k, "interface"):
+			name := javaListNames[(next+usedNames)%len(javaListNames)]
+			usedNames++
+			nm[k] = name
+			tm[name] = t
+			renamed++
+		case t.Kind() == reflect.Struct && t.Name() == k && t != timeType && nm[k] == k:
+			name := "com.example.zoo." + k
+			nm[k] = name
+			tm[name] = t
+			renamed++
+		}
+	}
+	return tm, nm, fmt.Sprintf("%d types registered under Java-style names", renamed)
+}
